@@ -321,9 +321,15 @@ def isVarWord (a : Tok) : Bool :=
 
 def stripVars (args : List Tok) : List Tok := args.filter (fun a => !isVarWord a)
 
-/-- `process_args` evaluates `arg[0]`: an empty word raises IndexError outside the `try` of `DoitMain.run`
-    (open finding `empty-word-crash`) -/
-def processArgsCrashes (args : List Tok) : Bool := args.contains []
+/-- `DoitMain.process_args` (since 0ab6253 it tests `arg[:1]`): total; an empty word is not a variable, it stays on the
+    command line and is then looked up like any other word (as a name: not found; after an option that takes a value
+    or after a `pos_arg` task: a value) -/
+def cliArgs (args : List Tok) : List Tok := stripVars args
+
+/-- before 0ab6253 (F-C12-empty-word-crash) `process_args` evaluated `arg[0]`: an empty word anywhere on the command line
+    raised IndexError outside the `try` of `DoitMain.run` (`none`) -/
+def pinnedCliArgs (args : List Tok) : Option (List Tok) :=
+  if args.contains [] then none else some (stripVars args)
 
 /-- `doit run [--single] ARGS` from the command line -/
 def planCli (ts : List Task) (args : List Tok) (dflt : Option (List Tok)) (single : Bool) : Except Err Plan :=
